@@ -119,6 +119,16 @@ def replay_hussainy_value(model):
                                 f"(relative difference {abs(got - want) / abs(want):.2e})")
             if got_hi is not None and abs((got - got_hi) - got_lo) > 1e-6 * abs(got):
                 problems.append(f"gravity {sg} {kind}, T={T_} F: m(p={p_}) - m(p={p_}; from 3000) = {got - got_hi!r} vs m(3000) = {got_lo!r}: not additive through pressure_standard")
+        # neighbouring rows of the default table at high pressure (10 psi apart, a relative difference below 1e-3): a short
+        # interval is still an interval
+        for a, b in ((9990.0, 10000.0), (13980.0, 13990.0), (14.7, 14.71)):
+            try:
+                got = float(rg.pseudopressure_Hussainy(T_, b, Tpc, ppc, sg, a))
+            except Exception as ex:  # noqa: BLE001
+                return True, {"what": f"pseudopressure_Hussainy raised {ex!r} for the interval ({a}, {b})", "inputs": {}}
+            want = _quad(f, a, b, epsabs=0, epsrel=1e-11, limit=200)[0]
+            if abs(got - want) > 1e-6 * abs(want):
+                problems.append(f"gravity {sg} {kind}, T={T_} F: pseudopressure_Hussainy from {a} to {b} psia = {got!r} vs the integral {want!r}")
     return bool(problems), {"what": "; ".join(problems[:2]) or "pseudopressure_Hussainy is the integral to 1e-6 on light and heavy gases", "inputs": {}}
 
 
@@ -142,8 +152,18 @@ def job_hussainy(job):
 
     for with_std in (True, False):
         tag = "explicit standard pressure" if with_std else "default standard pressure"
-        for k, pr in enumerate(paths(job, lambda: run(with_std), dom)):
+        lo_ = vs["pstd"] if with_std else K("14.70")
+        for k, pr in enumerate(paths(job, lambda: run(with_std), dom, catch=(Exception,))):
+            if pr.exc is not None:
+                job.prove(f"hussainy[{tag}]/raises {type(pr.exc).__name__}[path{k}]", pr.pc, bound="gas box", replay=replay_hussainy_value, note=repr(pr.exc)[:100])
+                continue
             v, calls = pr.value
+            if len(calls) == 0:
+                # a path that answers without integrating (a shortcut): admissible only for the empty interval p == p_standard,
+                # where the integral is 0
+                job.prove(f"hussainy[{tag}]/a path without quadrature is taken only for p == standard pressure and returns 0[path{k}]",
+                          pr.pc + [T.b_or(T.b_ne(P(vs["p"]), P(lo_)), T.b_not(T.b_eq0(P(v))))], bound="gas box", replay=replay_hussainy_value)
+                continue
             if len(calls) != 1:
                 job.errors.append("pseudopressure_Hussainy: expected exactly one quadrature call")
                 continue
